@@ -2,7 +2,8 @@
 """Regenerate MANIFEST.json from registry.json (claimed checks) and properties.jsonl."""
 import json, os
 V = os.path.dirname(os.path.abspath(__file__))
-reg = json.load(open(os.path.join(V, "registry.json")))
+reg = {f[:-5]: json.load(open(os.path.join(V, "registry.d", f)))
+       for f in sorted(os.listdir(os.path.join(V, "registry.d"))) if f.endswith(".json")}
 props = [json.loads(l) for l in open(os.path.join(V, "properties.jsonl"))]
 checks, na = [], []
 for p in props:
